@@ -231,6 +231,11 @@ def job_conventions():
 
     cfg = Config()
     cfg.contracts[T_SHELL] = callee
+    # the loop state by role, not by name: the two lists that both loops extend and the function returns (in the order of
+    # the return statement: permutation, signs) and the variable the outer loop binds to the shell
+    _, _, ret, outer_targets, _, carried = source.loop_roles("iodata.convert", "convert_conventions", 0)
+    PERM, SIGNS = [nm for nm in ret if nm in carried][:2]
+    SHELL = outer_targets[0]
 
     def fresh_lists(interp, frame, tag):
         ctx = interp.ctx
@@ -238,11 +243,11 @@ def job_conventions():
         ctx.assume(z3.And(nP >= 0, nS >= 0))  # type invariant: a list length is non-negative
         fP = z3.Function(ctx.fresh(f"{tag}.P"), z3.IntSort(), z3.IntSort())
         fS = z3.Function(ctx.fresh(f"{tag}.S"), z3.IntSort(), z3.IntSort())
-        frame.locals["permutation"] = SList(SSeq(nP, lambda i: wrap(fP(i)), list))
-        frame.locals["signs"] = SList(SSeq(nS, lambda i: wrap(fS(i)), list))
+        frame.locals[PERM] = SList(SSeq(nP, lambda i: wrap(fP(i)), list))
+        frame.locals[SIGNS] = SList(SSeq(nS, lambda i: wrap(fS(i)), list))
 
     def state(frame):
-        p, s = seq_of(frame.locals["permutation"]), seq_of(frame.locals["signs"])
+        p, s = seq_of(frame.locals[PERM]), seq_of(frame.locals[SIGNS])
         return (lambda i: to_z3(p.at(i))), (lambda i: to_z3(s.at(i))), p.n, s.n
 
     # outer loop: `for shell in molbasis.shells`, k = number of shells done
@@ -256,16 +261,16 @@ def job_conventions():
     # inner loop: `for angmom, kind in zip(shell.angmoms, shell.kinds)`, c = contractions of this shell done
     def inner_havoc(interp, frame, c):
         fresh_lists(interp, frame, "inner")
-        sidx = frame.locals["shell"].index
+        sidx = frame.locals[SHELL].index
         interp.ctx.assume(th.nf_def(th.angm(sidx, to_z3(c)), th.kind(sidx, to_z3(c))))
 
     def inner_inv(interp, frame, c):
         P, S, nP, nS = state(frame)
-        s = frame.locals["shell"].index
+        s = frame.locals[SHELL].index
         return z3.And(0 <= s, s < th.ns, c <= th.ncon(s), nP == th.off(s, c), nS == nP, th.blocks_done(P, S, nP, s, c))
 
     cfg.loop_specs[(T_CONV, 0)] = LoopSpec("molbasis.shells", outer_havoc, outer_inv, name="loop.shells")
-    cfg.loop_specs[(T_CONV, 1)] = LoopSpec("zip(shell.angmoms, shell.kinds)", inner_havoc, inner_inv, name="loop.contractions")
+    cfg.loop_specs[(T_CONV, 1)] = LoopSpec(f"zip({SHELL}.angmoms, {SHELL}.kinds)", inner_havoc, inner_inv, name="loop.contractions")
 
     def setup(ctx, interp):
         for ax in th.axioms():
